@@ -2,7 +2,7 @@
 EXTENDS MCCore
 
 WCfg(nm, np, G, Wd) == [n |-> nm, ln |-> nm, np |-> np, G |-> G, W |-> Wd, sing |-> FALSE, resp |-> TRUE, auto |-> TRUE, prio |-> 0,
-                       ssig |-> 15, sch |-> FALSE, hup |-> FALSE, hooks |-> <<>>, retry |-> 2]
+                       ssig |-> 15, sch |-> FALSE, hup |-> FALSE, hooks |-> <<>>, retry |-> 2, ver |-> 1]
 mc_Configs == { [cd |-> 3, wg |-> 0, ws |-> <<WCfg("w1", 1, 1, 0)>>, obeyset |-> {TRUE, FALSE}] }
 Rq(cmd, nm, waiting) == [cmd |-> cmd, name |-> nm, lname |-> nm, hasname |-> nm # "", mid |-> "", waiting |-> waiting,
             cast |-> FALSE, pid |-> -1, signum |-> -1, children |-> FALSE, recursive |-> FALSE, childpid |-> -1,
